@@ -138,6 +138,7 @@ func H_C18_replace(s any) {
 }
 
 // sequences of keyed operations: no two entries with equal keys, each entry found under its key
+//
 //vp:setup S_c03
 func H_C18_keys_unique_seq(s any) {
 	m := s.(*meta.Module)
